@@ -103,11 +103,12 @@ class get_section_name:
 class make_section:
     params = dict(self=ELFFileT(_section_header_stringtable=Opt(SectionT('StringTableSection'))),
                   section_header=ShdrT)
+    requires = INV
     returns = SecRet
     ensures = ["kind(result) == section_kind(section_header.sh_type, secname(self._section_header_stringtable, section_header.sh_name))",
                "result.header == section_header",
                "result.name == secname(self._section_header_stringtable, section_header.sh_name)"]
-    may_raise = ["ELFError", "OverflowError"]
+    may_raise = ["ELFError", "OverflowError", "TypeError"]      # TypeError: a section link to a slot beyond the end of the file
 
 
 @contract("elftools/elf/elffile.py", "ELFFile._make_segment", props=["C01"])
@@ -136,7 +137,7 @@ class get_section:
     returns = SecRet
     ensures = ["result.header == P('Elf_Shdr', self.stream.B, self.header.e_shoff + n * self.header.e_shentsize)",
                "result.name == secname(self._section_header_stringtable, result.header.sh_name)"]
-    may_raise = ["ELFError", "OverflowError"]
+    may_raise = ["ELFError", "OverflowError", "TypeError"]
 
 
 @contract("elftools/elf/elffile.py", "ELFFile.num_segments", props=["C01", "C19"])
@@ -147,7 +148,7 @@ class num_segments:
     returns = Int
     ensures = ["result == (self.header.e_phnum if self.header.e_phnum < 0xffff"
                " else P('Elf_Shdr', self.stream.B, self.header.e_shoff).sh_info)"]
-    may_raise = ["ELFError", "OverflowError"]
+    may_raise = ["ELFError", "OverflowError", "TypeError"]    # PN_XNUM builds section 0, which may follow a link beyond the file
 
 
 @contract("elftools/elf/elffile.py", "ELFFile.iter_segments", props=["C01", "C19"])
@@ -165,7 +166,7 @@ class iter_segments:
                   "type is None or value.header.p_type == type",
                   "type is not None or $k0 == $n"]
     ensures = ["type is not None or $n == max(0, nseg(self))"]
-    may_raise = ["ELFError", "OverflowError"]
+    may_raise = ["ELFError", "OverflowError", "TypeError"]
 
 
 @contract("elftools/elf/elffile.py", "ELFFile.iter_sections", props=["C01", "C19"])
@@ -212,25 +213,49 @@ class dynseg_ctor:
     may_raise = ["ELFError", "OverflowError"]
 
 
-def _helper(name, cls):
+LinkedSec = Obj('Section', header=ShdrT, name=Str)
+
+
+def _helper(name, cls, attr, want, ctor_inline=True):
+    """the helpers that build a section which refers to another one: the linked section is the one whose header
+    sits in slot sh_link of the section header table, and it has (one of) the type(s) the link must designate;
+    the symbol-table-index section keeps the link as a number"""
+    shape = dict(header=ShdrT, name=Str)
+    shape[attr] = Nat if want is None else LinkedSec
+
     @contract("elftools/elf/elffile.py", "ELFFile." + name, props=["C01"])
     class _h:
-        """linked-section validation + construction (checked under the property of the class)"""
-        mode = 'assume'
-        returns = Obj(cls, header=ShdrT, name=Str)
-        ensures = ["result.header == section_header", "result.name == name"]
-        may_raise = ["ELFError", "OverflowError"]
+        params = dict(self=ELFFileT(_section_header_stringtable=Opt(SectionT('StringTableSection'))),
+                      section_header=ShdrT, name=Str)
+        requires = INV
+        returns = Obj(cls, **shape)
+        ghost = {"$o": "self.header.e_shoff + section_header.sh_link * self.header.e_shentsize"}
+        ensures = ["result.header == section_header", "result.name == name"] + (
+            ["result.%s == section_header.sh_link" % attr] if want is None else
+            ["result.%s.header == P('Elf_Shdr', self.stream.B, $o)" % attr,
+             "result.%s.header.sh_type in %r" % (attr, want), "$o <= self.stream_len"])
+        may_raise = ["ELFError", "OverflowError"] + ([] if want is None else ["TypeError"])
     return _h
 
 
-_helper("_make_symbol_table_section", "SymbolTableSection")
-_helper("_make_symbol_table_index_section", "SymbolTableIndexSection")
-_helper("_make_sunwsyminfo_table_section", "SUNWSyminfoTableSection")
-_helper("_make_gnu_verneed_section", "GNUVerNeedSection")
-_helper("_make_gnu_verdef_section", "GNUVerDefSection")
-_helper("_make_gnu_versym_section", "GNUVerSymSection")
-_helper("_make_elf_hash_section", "ELFHashSection")
-_helper("_make_gnu_hash_section", "GNUHashSection")
+# constructors of the specialised section classes: executed from their real bodies at the helpers' call sites
+for _file, _cls in (("sections", "SymbolTableIndexSection"), ("sections", "SUNWSyminfoTableSection"),
+                    ("gnuversions", "GNUVersionSection"), ("gnuversions", "GNUVerNeedSection"),
+                    ("gnuversions", "GNUVerDefSection"), ("gnuversions", "GNUVerSymSection"),
+                    ("hash", "ELFHashSection"), ("hash", "GNUHashSection"), ("hash", "ELFHashTable"), ("hash", "GNUHashTable")):
+    @contract("elftools/elf/%s.py" % _file, "%s.__init__" % _cls, props=["C01"])
+    class _sctor:
+        inline = True
+
+_STR, _SYM = ('SHT_STRTAB',), ('SHT_SYMTAB', 'SHT_DYNSYM')
+_helper("_make_symbol_table_section", "SymbolTableSection", "stringtable", _STR)
+_helper("_make_symbol_table_index_section", "SymbolTableIndexSection", "symboltable", None)
+_helper("_make_sunwsyminfo_table_section", "SUNWSyminfoTableSection", "symboltable", _SYM)
+_helper("_make_gnu_verneed_section", "GNUVerNeedSection", "stringtable", _STR)
+_helper("_make_gnu_verdef_section", "GNUVerDefSection", "stringtable", _STR)
+_helper("_make_gnu_versym_section", "GNUVerSymSection", "symboltable", _SYM)
+_helper("_make_elf_hash_section", "ELFHashSection", "_symboltable", _SYM)
+_helper("_make_gnu_hash_section", "GNUHashSection", "_symboltable", _SYM)
 
 
 for _prop in ("compressed", "data_size", "data_alignment"):
@@ -276,4 +301,4 @@ class get_section_by_name:
     ensures = ["(result is None) == (name not in self._section_name_map)",
                "result is None or result.header == P('Elf_Shdr', self.stream.B, self.header.e_shoff"
                " + self._section_name_map[name] * self.header.e_shentsize)"]
-    may_raise = ["ELFError", "OverflowError", "UnicodeDecodeError"]
+    may_raise = ["ELFError", "OverflowError", "UnicodeDecodeError", "TypeError"]
